@@ -1,5 +1,6 @@
 """C01 — decimal string->float parsing is correctly rounded."""
 import gens
+import gens_algos
 from props.common import TRUSTED_BASE, ASSUMPTIONS
 
 ID = "C01"
@@ -31,9 +32,11 @@ def streams(tier, rng, fs, profile):
         ("g-hard", gens.float_parse_hard_ops(rng, fs, [10], n, rich=True, tails=8 if tier == "quick" else 120)),
         ("g-exp", gens.float_exp_ops(rng, fs, [10])),
         ("g-random", gens.float_random_ops(rng, fs, [10], 1500 if tier == "quick" else 30000)),
-    ]
+    ] + gens_algos.algo_streams(rng, fs, tier)   # component level: compute_float / lemire / bellerophon / binary / fast path
 
 
 def nontrivial(op, res):
     t = res.split(" ")
+    if op.split(" ")[0] in ("cf", "lm", "bel", "bin", "sbin", "fp"):
+        return t[0] in ("ok", "inv", "some") and (len(t) < 2 or t[1] not in ("0",))
     return t[0] == "ok" and t[1] not in ("0", "80000000", "8000000000000000", "nan")
